@@ -340,7 +340,11 @@ func (w *fworld) newReplica(writer, sk string) {
 
 func (w *fworld) doAppend(i, pc int) {
 	w.nextPl++
-	e, err := w.reps[i].Append(w.ctx, []byte(fmt.Sprintf("p%d", w.nextPl)), &iface.AppendOptions{PointerCount: pc})
+	payload := []byte(fmt.Sprintf("p%d", w.nextPl))
+	if w.nextPl%7 == 3 {
+		payload = []byte{} // an empty payload is a legal entry and must be fetched like any other
+	}
+	e, err := w.reps[i].Append(w.ctx, payload, &iface.AppendOptions{PointerCount: pc})
 	if err != nil {
 		panic(err)
 	}
